@@ -278,6 +278,7 @@ fn parse_post_operators(
                     if p.at(TokenKind::RParen) {
                         break;
                     }
+                    let start_idx = p.token_idx;
                     if let Some(arg_m) = expr::parse_expr(p, "argument") {
                         arg_m.precede(p).complete(p, NodeKind::Arg);
                     }
@@ -288,6 +289,11 @@ fn parse_post_operators(
 
                     if !p.at(TokenKind::RParen) {
                         p.expect_with_no_skip(TokenKind::Comma);
+                    }
+
+                    // nothing was consumed, so the next iteration would do exactly the same
+                    if p.token_idx == start_idx {
+                        break;
                     }
                 }
 
@@ -653,6 +659,7 @@ fn parse_lambda(p: &mut Parser, recovery_set: TokenSet) -> CompletedMarker {
             break;
         }
 
+        let start_idx = p.token_idx;
         let param_m = p.start();
 
         if p.at(TokenKind::Comptime) {
@@ -680,6 +687,11 @@ fn parse_lambda(p: &mut Parser, recovery_set: TokenSet) -> CompletedMarker {
 
         if !p.at(TokenKind::RParen) {
             p.expect_with_no_skip(TokenKind::Comma);
+        }
+
+        // nothing was consumed, so the next iteration would do exactly the same
+        if p.token_idx == start_idx {
+            break;
         }
     }
     p.expect_with_recovery_set(
@@ -794,6 +806,7 @@ fn parse_struct_decl(p: &mut Parser, recovery_set: TokenSet) -> CompletedMarker 
             break;
         }
 
+        let start_idx = p.token_idx;
         let field_m = p.start();
         let _guard = p.expected_syntax_name("field name");
         p.expect(TokenKind::Ident);
@@ -814,6 +827,11 @@ fn parse_struct_decl(p: &mut Parser, recovery_set: TokenSet) -> CompletedMarker 
 
         if !p.at(TokenKind::RBrace) {
             p.expect_with_no_skip(TokenKind::Comma);
+        }
+
+        // nothing was consumed, so the next iteration would do exactly the same
+        if p.token_idx == start_idx {
+            break;
         }
     }
     p.expect(TokenKind::RBrace);
@@ -852,6 +870,7 @@ fn parse_struct_literal(
             break;
         }
 
+        let start_idx = p.token_idx;
         let field_m = p.start();
         let _guard = p.expected_syntax_name("field name");
         p.expect_with_no_skip(TokenKind::Ident);
@@ -876,6 +895,11 @@ fn parse_struct_literal(
 
         if !p.at(TokenKind::RBrace) {
             p.expect_with_no_skip(TokenKind::Comma);
+        }
+
+        // nothing was consumed, so the next iteration would do exactly the same
+        if p.token_idx == start_idx {
+            break;
         }
     }
     p.expect_with_recovery_set(TokenKind::RBrace, recovery_set);
@@ -904,6 +928,7 @@ fn parse_enum_decl(p: &mut Parser, recovery_set: TokenSet) -> CompletedMarker {
             break;
         }
 
+        let start_idx = p.token_idx;
         let variant_m = p.start();
         let _guard = p.expected_syntax_name("variant name");
         p.expect(TokenKind::Ident);
@@ -935,6 +960,11 @@ fn parse_enum_decl(p: &mut Parser, recovery_set: TokenSet) -> CompletedMarker {
 
         if !p.at(TokenKind::RBrace) {
             p.expect_with_no_skip(TokenKind::Comma);
+        }
+
+        // nothing was consumed, so the next iteration would do exactly the same
+        if p.token_idx == start_idx {
+            break;
         }
     }
     p.expect(TokenKind::RBrace);
@@ -1165,6 +1195,7 @@ fn parse_switch(p: &mut Parser, recovery_set: TokenSet) -> CompletedMarker {
                 break;
             }
 
+            let start_idx = p.token_idx;
             let arm_m = p.start();
             // todo: catch shorthand cases where the dot is missing
             if p.at(TokenKind::Dot) {
@@ -1201,6 +1232,11 @@ fn parse_switch(p: &mut Parser, recovery_set: TokenSet) -> CompletedMarker {
             // attach themselves to the last block as paths
             if !p.at(TokenKind::RBrace) || p.at(TokenKind::Comma) {
                 p.expect_with_no_skip(TokenKind::Comma);
+            }
+
+            // nothing was consumed, so the next iteration would do exactly the same
+            if p.token_idx == start_idx {
+                break;
             }
         }
 
@@ -1264,6 +1300,7 @@ fn parse_directive(p: &mut Parser) -> CompletedMarker {
         if p.at(TokenKind::RParen) {
             break;
         }
+        let start_idx = p.token_idx;
         if let Some(arg_m) = expr::parse_expr(p, "argument") {
             arg_m.precede(p).complete(p, NodeKind::Arg);
         }
@@ -1274,6 +1311,11 @@ fn parse_directive(p: &mut Parser) -> CompletedMarker {
 
         if !p.at(TokenKind::RParen) {
             p.expect_with_no_skip(TokenKind::Comma);
+        }
+
+        // nothing was consumed, so the next iteration would do exactly the same
+        if p.token_idx == start_idx {
+            break;
         }
     }
 
